@@ -1185,7 +1185,8 @@ class MultipartWriter(Payload):
             if self._is_form_data:
                 # https://datatracker.ietf.org/doc/html/rfc7578#section-4.2
                 assert CONTENT_DISPOSITION in part.headers
-                assert "name=" in part.headers[CONTENT_DISPOSITION]
+                # A name that is not a quoted-string is sent as name*=
+                assert re.search(r"name\*?=", part.headers[CONTENT_DISPOSITION])
 
             await writer.write(b"--" + self._boundary + b"\r\n")
             await writer.write(part._binary_headers)
